@@ -9,8 +9,9 @@
 (*                                                                         *)
 (* Code mirrored (regclient), one macro per function, one primitive per    *)
 (* system call:                                                            *)
-(*   InitIndex     scheme/ocidir/ocidir.go:initIndex   (Stat, MkdirAll,    *)
-(*                 os.Create(oci-layout), Write)                           *)
+(*   InitIndex /   scheme/ocidir/ocidir.go:initIndex -> writeLayout (valid();*)
+(*   MarkerEnsure  when oci-layout is missing or unreadable: MkdirAll,     *)
+(*                 OpenFile(oci-layout.tmp), Write, Rename)                *)
 (*   BlobPut       scheme/ocidir/blob.go:BlobPut       (initIndex under    *)
 (*                 o.mu, MkdirAll, CreateTemp, Write*, Rename, refMod)     *)
 (*   ManPut        scheme/ocidir/manifest.go:manifestPut (initIndex,       *)
@@ -18,9 +19,8 @@
 (*                 refMod, referrerPut when the manifest has a subject)    *)
 (*   UpdIndex      ocidir.go:updateIndex  (readIndex; an UNREADABLE index  *)
 (*                 is replaced by an empty one; indexSet; writeIndex)      *)
-(*   WriteIndex    ocidir.go:writeIndex   (MkdirAll, os.Create(oci-layout) *)
-(*                 + Write on EVERY index write, CreateTemp(index tmp),    *)
-(*                 Write, Rename)                                          *)
+(*   WriteIndex    ocidir.go:writeIndex   (writeLayout, CreateTemp(index   *)
+(*                 tmp), Write, Rename)                                    *)
 (*   RefPut/RefDel scheme/ocidir/referrer.go:referrerPut / referrerDelete  *)
 (*                 (fall-back tag read-modify-write through manifestPut /  *)
 (*                 tagDelete)                                              *)
@@ -56,16 +56,21 @@
 (*    unreferenced files)                                                  *)
 (*  - the order in which os.ReadDir / the tar reader / the driver present  *)
 (*    blobs is left open (any order)                                       *)
-(*  - MarkerMode = "rewrite" is the code as it is; "ifbad" models the      *)
-(*    repair proposed in findings/C07-1.patch (marker written only when    *)
-(*    missing or unreadable, through a temp file and rename)               *)
+(*  - MarkerMode = "ifbad" is the code (baseline of every config that is   *)
+(*    expected to hold and of the trace binding): since commit 5457c02     *)
+(*    oci-layout is written only when missing or unreadable, through a     *)
+(*    temp file and rename.  MarkerMode = "rewrite" is a SWITCH that keeps *)
+(*    the code as it was found (initIndex: Stat + os.Create + Write;       *)
+(*    writeIndex: os.Create(oci-layout) + Write on EVERY index write); its *)
+(*    configs C07_mc_asfound*.cfg carry the expected counterexample of     *)
+(*    finding C07-1 and explain the seeds fixrev-C07-marker-*.             *)
 (***************************************************************************)
 EXTENDS Naturals, Sequences, FiniteSets, TLC, SequencesExt
 
 CONSTANTS Scenarios,      \* set of [start, kind, t, o, gc, tar]
           MaxCrash,       \* 1: crash + retry; 2: the retry may crash as well
-          MarkerMode,     \* "rewrite" | "ifbad"
-          MarkerWindow    \* FALSE: no crash while oci-layout is truncated (isolates suspicion S4)
+          MarkerMode,     \* "ifbad" (the code, baseline) | "rewrite" (as found before 5457c02)
+          MarkerWindow    \* FALSE: no crash while oci-layout is truncated (only meaningful with "rewrite")
 
 VARIABLES fs,     \* [marker, index, cas, tmps, dirs]   the directory
           pr,     \* [thr, par, loc, mu, mod, gcl, seen]  the writing process
